@@ -117,7 +117,7 @@ void harness(void) {
 ''']
     return Harness('C15.HandleSigInt', 'C15', parts, enforce='HandleSigInt', replace=['vp_write'], loop_contracts=True,
                    expect_loop_obligations=1, stubs=['write (returns -1..n, reads only inside [p,p+n))', 'signal', '_exit'],
-                   note='contract of the handler, proved on its real body for every state')
+                   note='contract of the handler, proved on its real body for every state', replay=replay_counts)
 
 
 SCHED = '''
@@ -192,6 +192,16 @@ def set_fn(hooks):
 
 def stop_fn():
     return Fn(SAB, r'bool Stop\(\) const', 'bool Stop(void)', label='mp::internal::SignalHandler::Stop', nmatches=1)
+
+
+def replay_counts(lead, inputs, obs):
+    """HandleSigInt's contract has no schedule to replay: real signals, raised in-process, before / after the callback registration
+    (replay/c15_counts_replay.cc)"""
+    import subprocess
+    from vp import native
+    drv, _ = native.build_driver('c15_counts_replay.cc', 'c15_counts_replay', native.MP_SOURCES, ['-O0'])
+    p = subprocess.run([drv], capture_output=True, text=True, timeout=120)
+    return p.returncode == 10, (p.stdout + p.stderr)[-2000:], drv
 
 
 def make_replay(hooks, scenario):
